@@ -61,6 +61,9 @@ def filt(lines, parts, sub=None):
             c = canon_staging(l)
             if c.startswith("T append staging/"):
                 continue                      # what they must satisfy is the oracles' business (cas_immutable, abort_noop)
+            if p == "trace" and "cas/" not in c and "staging/" not in c:
+                continue                      # the compared trace is the traffic on blobs and staging files; index, log and
+                                              # settings files are compared by content (dir / image parts)
             out.append(c)
     return out
 
